@@ -403,6 +403,17 @@ func loopForm(info *types.Info, n ast.Node) (string, string) {
 				}
 			}
 		}
+		// counted on a field of a local object: for ; s.n > 0; s.n-- { ... } where the body neither assigns that
+		// field nor hands the object to anybody (no call mentions it)
+		if be, ok := x.Cond.(*ast.BinaryExpr); ok && x.Post != nil {
+			if sel, ok := be.X.(*ast.SelectorExpr); ok {
+				if base, ok := sel.X.(*ast.Ident); ok {
+					if fieldCounted(info, x, be, sel, base) {
+						return "counted", ""
+					}
+				}
+			}
+		}
 		// parent-chain walk: for v != nil { ...; v = v.F } (every assignment to v in the loop follows the same field)
 		if be, ok := x.Cond.(*ast.BinaryExpr); ok && be.Op == token.NEQ {
 			if id, ok := be.X.(*ast.Ident); ok {
@@ -501,6 +512,61 @@ func popsIn(body *ast.BlockStmt, name string) bool {
 		return true
 	})
 	return found
+}
+
+// fieldCounted: cond is `base.f > K` / `>= K` / `!= K` with post `base.f--`, or `base.f < K` / `<= K` with `base.f++`
+// (K a literal), and nothing in the body assigns a field of that name or passes base on.
+func fieldCounted(info *types.Info, x *ast.ForStmt, be *ast.BinaryExpr, sel *ast.SelectorExpr, base *ast.Ident) bool {
+	if _, isLit := be.Y.(*ast.BasicLit); !isLit {
+		return false
+	}
+	inc, ok := x.Post.(*ast.IncDecStmt)
+	if !ok {
+		return false
+	}
+	ps, ok := inc.X.(*ast.SelectorExpr)
+	if !ok || info.ObjectOf(ps.Sel) == nil || info.ObjectOf(ps.Sel) != info.ObjectOf(sel.Sel) {
+		return false
+	}
+	if pb, ok := ps.X.(*ast.Ident); !ok || info.ObjectOf(pb) != info.ObjectOf(base) {
+		return false
+	}
+	down := be.Op == token.GTR || be.Op == token.GEQ || be.Op == token.NEQ
+	up := be.Op == token.LSS || be.Op == token.LEQ
+	if !(down && inc.Tok == token.DEC || up && inc.Tok == token.INC) {
+		return false
+	}
+	if be.Op == token.NEQ {
+		return false // stepping past the bound would never end
+	}
+	clean := true
+	ast.Inspect(x.Body, func(n ast.Node) bool {
+		switch a := n.(type) {
+		case *ast.AssignStmt:
+			for _, l := range a.Lhs {
+				if ls, ok := l.(*ast.SelectorExpr); ok && info.ObjectOf(ls.Sel) == info.ObjectOf(sel.Sel) {
+					clean = false
+				}
+			}
+		case *ast.IncDecStmt:
+			if ls, ok := a.X.(*ast.SelectorExpr); ok && info.ObjectOf(ls.Sel) == info.ObjectOf(sel.Sel) {
+				clean = false
+			}
+		case *ast.CallExpr:
+			ast.Inspect(a, func(m ast.Node) bool {
+				if id, ok := m.(*ast.Ident); ok && info.ObjectOf(id) == info.ObjectOf(base) {
+					clean = false
+				}
+				return true
+			})
+		case *ast.UnaryExpr:
+			if a.Op == token.AND {
+				clean = false // an address taken in the body: the field may be reached through it
+			}
+		}
+		return true
+	})
+	return clean
 }
 
 func postModifies(post ast.Stmt, name string) bool {
